@@ -125,6 +125,10 @@ Pop(st, p, i) ==               \* children.pop(i) (1-based here); the caller get
   IF i > Len(st.kids[p]) THEN {Rej(st)}
   ELSE {Ok([st EXCEPT !.kids[p] = RemoveAt(@, i), !.held = @ \cup {st.kids[p][i]}])}
 
+DelAt(st, p, i) ==             \* del children[i] (1-based here): the child at that list position is discarded
+  IF i > Len(st.kids[p]) THEN {Rej(st)}
+  ELSE {Ok(Drop([st EXCEPT !.kids[p] = RemoveAt(@, i)], st.kids[p][i]))}
+
 DelRep(st, p, n, i) ==         \* del p.<n> (i = 0) / del p.<n>[i] : the child is discarded
   LET r == Reps(st, p, n) IN
   IF n \notin Names \/ i >= Len(r) THEN {Rej(st)}
@@ -165,6 +169,7 @@ Succ(st, o) ==
     [] o.op = "Insert"   -> Insert(st, o.p, o.i, o.c)
     [] o.op = "Remove"   -> Remove(st, o.p, o.c)
     [] o.op = "Pop"      -> Pop(st, o.p, o.i)
+    [] o.op = "DelAt"    -> DelAt(st, o.p, o.i)
     [] o.op = "DelName"  -> DelRep(st, o.p, o.n, 0)
     [] o.op = "DelIdx"   -> DelRep(st, o.p, o.n, o.i)
     [] o.op = "CopyFrom" -> CopyFrom(st, o.p, o.n, o.q)
